@@ -18,7 +18,7 @@ func init() {
 	register("C07", func(tier string) CheckSpec {
 		depth, budget := 4, 280*time.Second
 		if tier == "thorough" {
-			depth, budget = 5, 40*time.Minute
+			depth, budget = 5, 20*time.Minute
 		}
 		return CheckSpec{Level: "model_checking", Rule: searchRule + "; the alphabet holds every evidence object obtained from a valid one by one mutation, for every signer key state and both consumers sharing a chain id, so each is submitted in every reached state (including after other submissions and after the pruning deadline)", Assumptions: append([]string{
 			"votes and headers are really signed with harness-generated ed25519 keys (provider keys, assigned consumer keys); the IBC light client's own misbehaviour verification is the real ibc-go code against the client the provider created at launch",
